@@ -18,9 +18,9 @@ deletable keys (the alias key, the leaf of the path), in a shuffled order, each 
 
 Kept out for now (genuine deviations of the unchanged library, see the files named):
   * a path-bound field typed `Any` with a default_factory in the default engine shares one product between all loads
-    (/tmp/ag/D/findings/path-any-default-factory-shared.py);
+    (repaired by fa12b2f; findings/path-default-factory-shared.py is the directed regression);
   * a *required* path-bound field whose path is absent raises ParseError (naming the path) instead of MissingFields, on
-    both engines (/tmp/ag/D/findings/required-path-absent-parse-error.py) — such fields are generated, but their key is
+    both engines (findings/required-path-absent-parse-error.py) — such fields are generated, but their key is
     never deleted.
 """
 from __future__ import annotations
@@ -82,8 +82,6 @@ def gen_class(rng, engine):
             dflt = ['lit', rng.choice(lits)]
         else:
             dflt = None
-        if engine == 'default' and bind == 'path' and tk == 'any' and dflt and dflt[0] == 'fac':
-            dflt = ['lit', None]                 # kept out: findings/path-any-default-factory-shared.py
         f = {'name': name, 'ty': tk, 'dflt': dflt, 'bind': bind, 'form': rng.choice(FORMS[(engine, bind)]), 'deletable': True}
         if bind == 'alias':
             pool = [k for k in ALIAS_KEYS if k not in keys and k not in used]
